@@ -44,7 +44,19 @@ def compare(a, b, tol=1e-9):
         for t in ("sidechain", "backbone", "coulomb"):
             if len(x[t]) != len(y[t]) or any(abs(p - q) > tol for p, q in zip(sorted(v for _, v in x[t]), sorted(v for _, v in y[t]))):
                 d.append("%s.%s values %r vs %r" % (x["label"], t, sorted(round(v, 4) for _, v in x[t])[:4], sorted(round(v, 4) for _, v in y[t])[:4]))
+        # the coupling marks ('*' in the file) belong to the results too: the same groups, by position, are coupled
+        pa, pb = coupled_positions(ra, k[0], x), coupled_positions(rb, k[0], y)
+        if pa != pb:
+            d.append("%s coupled with the groups at %r vs %r" % (x["label"], pa[:3], pb[:3]))
     return d
+
+
+def coupled_positions(recs, conf, g):
+    """positions (defining-atom coordinates) of the groups `g` is non-covalently coupled with, looked up by label"""
+    out = []
+    for lab in g["coupled"]:
+        out += sorted(k[1] for k, h in recs.items() if k[0] == conf and h["label"] == lab)
+    return sorted(out)
 
 
 def relabellings(rnd, lines):
@@ -69,6 +81,11 @@ def relabellings(rnd, lines):
     for shift in (rnd.randint(1, 400), -(min(nums) + rnd.randint(1, 50))):
         if max(nums) + shift < 9999 and min(nums) + shift > -999:
             out.append(("shift%+d" % shift, [pdbgen.setcols(l, 22, 26, "%4d" % (int(l[22:26]) + shift)) if pdbgen.is_atom(l) else l for l in lines]))
+    # residue numbers that fill all four columns (1000 and more, -100 and less): the printed label then has no blank between
+    # residue name and number
+    for shift in (1000 + rnd.randint(0, 5000), -(max(nums) + 100 + rnd.randint(0, 700))):
+        if max(nums) + shift <= 9999 and min(nums) + shift >= -999:
+            out.append(("shift%+d-four-columns" % shift, [pdbgen.setcols(l, 22, 26, "%4d" % (int(l[22:26]) + shift)) if pdbgen.is_atom(l) else l for l in lines]))
     # a chain without identifier (blank column 22), and every chain named on the command line (the blank one as ' ')
     blank = {chains[0]: " "}
     bl = [pdbgen.setcols(l, 21, 22, blank.get(l[21], l[21])) if pdbgen.is_atom(l) else l for l in lines]
@@ -225,7 +242,7 @@ def corpus_first(ctx):
                 ctx.violate(rep["signature"], "corpus witness %s: %s" % (f.name, "; ".join(d[:2])), r)
 
 
-def run(ctx):
+def _run(ctx):
     rnd = ctx.rng
     corpus_first(ctx)
     inputs = [(n, t) for n, t in pdbgen.test_files(["1HPX", "3SGB-subset"] if ctx.quick() else ["1HPX", "3SGB", "4DFR", "1FTJ-Chain-A"])]
@@ -243,6 +260,8 @@ def run(ctx):
         if lists:
             pos = {g: i for i, g in enumerate(lists[0])}
             loops.append((name, len(lists[0]), [(pos[a], pos[b]) for a, b in rec if a in pos and b in pos and (a, b) in set(rec)], text, base))
+        has_coupled = any(g["coupled"] for c, gs in base.confs.items() if c != "AVR" for g in gs)
+        base_d = observe.run(text, ["-d"], want_text=False) if has_coupled else None
         for rel in relabellings(rnd, lines):
             kind, rl = rel[0], rel[1]
             o = observe.run(pdbgen.text(rl), rel[2] if len(rel) > 2 else [], want_text=False)
@@ -251,6 +270,13 @@ def run(ctx):
             d = ["error %r" % (o.error,)] if o.error else compare(base, o)
             if d:
                 rel_bad.append((name, kind, d[:3], pdbgen.text(rl), text))
+            elif base_d is not None and not base_d.error and len(rel) == 2:
+                # with the alternative protonation states displayed (-d) the swapped determinants stay: same results again
+                od = observe.run(pdbgen.text(rl), ["-d"], want_text=False)
+                ctx.count("relabellings with -d (structures with coupled groups)")
+                d = ["error %r" % (od.error,)] if od.error else compare(base_d, od)
+                if d:
+                    rel_bad.append((name, kind + " with -d", d[:3], pdbgen.text(rl), text))
         if name.startswith("gen"):
             twr = twins(rnd, lines)
             if twr is not None:
@@ -309,6 +335,12 @@ def run(ctx):
         ctx.oblige("correspondence: pairs visited by the real set_determinants = model loop with identity test (%d runs)" % len(loops), not dis, str(dis[:2]))
     else:
         ctx.oblige("correspondence: pair loop model = real loop", False, "driver not built or no runs")
+
+
+def run(ctx):
+    from .. import scoring_common
+    with scoring_common.tie(ctx, "C06's structures and relabellings"):
+        _run(ctx)
 
 
 def replay(ctx, rep):
